@@ -1,22 +1,51 @@
-"""C02/C17 — run-length kernel of urwid/util.py against the expansion view:
-RP(R,k) = total length of the first k runs; at(R,p) = attribute of the run covering position p."""
+"""C02/C17/C01 — run-length kernel of urwid/util.py against the *expansion view*:
+
+    rle_len(R)   = RP(R, n)    the total of the runs (RP(R, k) = total of the first k runs)
+    at(R, p)     = the attribute of the run covering position p (0 <= p < rle_len(R))
+
+RP and at are model fields of the list theory (pyvc/seqs.py: `cpsum[1]`, `expand`): uninterpreted functions for a
+fresh list, derived structurally for every list the code builds from it (append, slice store, item store, +=).
+The link between the two for a fresh list is the definitional axiom `run_link(R, j)`: every position of run j
+expands to run j's attribute; it is instantiated at the run indices in play (DESIGN 3.7).  The one inductive fact
+used, "RP never decreases (grows by >= 1 per run when all runs are positive)", is the lemma at the end, instantiated
+groundly by `rp_mono`.
+
+Attributes are arbitrary values *including None* (Opt(Opaque)) or tuples of them (rle_product / rle_factor)."""
 import z3
 
 from pyvc import seqs as Q
 from pyvc import shapes as S
 from pyvc import values as V
 from pyvc.api import *
+from pyvc.seqs import LRef, SSeq
 from pyvc.values import cur, mk_bool, mk_int
 
 UT = "urwid/util.py:"
-ATTR = Opaque("Attr")
-RUN = Tup(ATTR, Int(0, 2**30))
-RLE = ListOf(RUN)
-_IDS = {}
+
+
+def forall(lo, hi, fn):  # noqa: F811 - no "is the range empty" solver query (see pyvc.values.forall)
+    return V.forall(lo, hi, fn, check_empty=False)
+
+
+ATTR = Opt(Opaque("Attr"))
+RMAX = 2**30
+CVT = 15000  # reachability queries of the vacuity guards (see pyvc.engine.State.cover)
+QBT = 250  # feasibility checks at branches: the path conditions carry quantified facts; `unknown` keeps the branch (sound)
+
+
+def RUNS(lo=0, attr=ATTR):
+    """A run-length list [(attr, run), ...] whose runs are all >= lo (lo=None: any integer)."""
+    return ListOf(Tup(attr, Int(lo, RMAX) if lo is not None else Int))
+
+
+RUN = Tup(ATTR, Int(0, RMAX))
+RLE = RUNS(0)
+RLE1 = RUNS(1)  # precondition "all runs positive" as a shape (also stated as `all_runs_at_least(r, 1)` in requires)
+PAIR = Tup(ATTR, ATTR)
 
 
 def _seq(r):
-    return r.seq if hasattr(r, "seq") else r
+    return r.seq if isinstance(r, LRef) else r
 
 
 def n_runs(r):
@@ -28,100 +57,364 @@ def run_at(r, j):
 
 
 def RP(r, k):
-    """Sum of the lengths of the first k runs of r (uninterpreted, one function per sequence value;
-    the defining equation is instantiated by `rp_step`)."""
-    s = _seq(r)
-    f = z3.Function(f"RP${id(s)}", z3.IntSort(), z3.IntSort())
-    _IDS[id(s)] = s  # keep alive
-    cur().assume(f(0) == 0)
-    return mk_int(f(V._z(k)))
+    """Total length of the first k runs of r."""
+    f = Q.seq_cpsum(_seq(r), 1)
+    if f is None:
+        raise Unsupported("RP of a list without a run-length model")
+    return f(k)
 
 
-def rp_step(r, j):
-    """Definitional instance: RP(j+1) = RP(j) + run_j and run_j >= 0 (for 0 <= j < len)."""
+def total(r):
+    return RP(r, n_runs(r))
+
+
+def at(r, p):
+    """Expansion view: the attribute at position p."""
     s = _seq(r)
-    n = Q.seq_len(s)
-    j = imax(0, imin(j, n - 1))
-    if isinstance(n, int) and n == 0:
-        return True
-    cur().assume(implies(n > 0, both(RP(r, j + 1) == RP(r, j) + run_at(r, j)[1], RP(r, j + 1) >= RP(r, j))))
+    if isinstance(s, (tuple, list)):
+        if not s:
+            return None
+        s = Q.to_sseq(s)
+    if s.expand is None:
+        raise Unsupported("at() of a list without a run-length model")
+    return s.expand(p)
+
+
+def aeq(x, y):
+    """Equality of attribute values (None, opaque, tuples of those) as a formula; never forks."""
+    if isinstance(x, tuple) and isinstance(y, tuple):
+        return both(*[aeq(p, q) for p, q in zip(x, y)]) if len(x) == len(y) else False
+    if isinstance(x, tuple) or isinstance(y, tuple):
+        return False
+    return opt_eq(x, y)
+
+
+def attr_shape(v, lref=None):
+    """Shape of the attribute component: from the list when it is known there, else from a value."""
+    if lref is not None:
+        s = _seq(lref)
+        if isinstance(s, SSeq) and isinstance(s.shape, S.Tup):
+            return s.shape.items[0]
+        if isinstance(s, tuple) and s:
+            return attr_shape(s[0][0])
+    if isinstance(v, tuple):
+        return Tup(*[attr_shape(x) for x in v])
+    return ATTR
+
+
+def all_runs_at_least(r, lo):
+    """forall j: run_j >= lo (one formula object per list value and path, so that it is the same atom in
+    `requires` and in `rp_mono`)."""
+    s = _seq(r)
+    memo = cur().ghost.setdefault("runs_at_least", {})
+    key = (id(s), lo)
+    if key not in memo:
+        memo[key] = (s, forall(0, n_runs(s), lambda j: run_at(s, j)[1] >= lo))
+    return memo[key][1]
+
+
+def rp_mono(r, i, j, lo):
+    """Instance of the lemma `rle-prefix-sums-monotone`: all runs >= lo and 0 <= i <= j <= n give
+    RP(j) >= RP(i) + lo*(j - i)."""
+    assert lo in (0, 1)
+    n = n_runs(r)
+    cur().assume(implies(both(all_runs_at_least(r, lo), 0 <= i, i <= j, j <= n), RP(r, j) >= RP(r, i) + lo * (j - i)))
     return True
 
 
-def rp_monotone(r):
-    """Runs are non-negative, so RP is monotone (stated as a quantified fact: its proof needs induction)."""
-    s = _seq(r)
-    f = z3.Function(f"RP${id(s)}", z3.IntSort(), z3.IntSort())
-    i, j = z3.Ints("rp_i rp_j")
-    return mk_bool(z3.ForAll([i, j], z3.Implies(z3.And(0 <= i, i <= j), f(i) <= f(j))))
+def link(r, j):
+    Q.run_link(_seq(r), j)
+    return True
+
+
+def unchanged(a, name):
+    """The list argument `name` still holds the very contents object it had at entry (no store of any kind)."""
+    return getattr(a, name).seq is getattr(a.old, name).seq
+
+
+# ------------------------------------------------------------------------------------------------ rle_len / rle_get_at
 
 
 @contract(UT + "rle_len", property=("C02", "C17"), replayable=False)
 class rle_len:
     params = dict(rle=RLE)
     result = Int
+    raises = ()
 
     def ensures(a, result):
-        yield "total-of-the-runs", result == RP(a.rle, n_runs(a.rle))
+        yield "total-of-the-runs", result == total(a.rle)
+        yield "operand-unchanged", unchanged(a, "rle")
 
-    loops = {0: Loop(invariant=lambda v: both(v.run == RP(v.rle, v.i_), rp_step(v.rle, v.i_)))}
+    loops = {0: Loop(invariant=lambda v: v.run == RP(v.rle, v.i_))}
 
 
 @contract(UT + "rle_get_at", property=("C02", "C17"), replayable=False)
 class rle_get_at:
     params = dict(rle=RLE, pos=Int)
-    result = Opt(ATTR)
-
-    def requires(a):
-        return rp_monotone(a.rle)
+    result = ATTR
+    raises = ()
 
     def ensures(a, result):
-        n = n_runs(a.rle)
-        if is_none(result):
-            yield "none-only-outside-the-covered-range", either(a.pos < 0, a.pos >= RP(a.rle, n))
-        else:
-            k = cur().fresh_int("k")
-            yield "attribute-of-the-covering-run", neg(forall(0, n, lambda j: neg(both(RP(a.rle, j) <= a.pos, a.pos < RP(a.rle, j) + run_at(a.rle, j)[1], eq(val(result), run_at(a.rle, j)[0])))))
+        L = total(a.rle)
+        inside = both(0 <= a.pos, a.pos < L)
+        yield "none-outside-the-covered-range", implies(neg(inside), opt_isnone(result))
+        yield "attribute-at-that-position", implies(inside, aeq(result, at(a.rle, a.pos)))
+        yield "operand-unchanged", unchanged(a, "rle")
 
-    loops = {0: Loop(invariant=lambda v: both(v.x == RP(v.rle, v.i_), v.x <= v.pos, v.pos >= 0, rp_step(v.rle, v.i_)))}
+    def requires(a):
+        return all_runs_at_least(a.rle, 0)
+
+    loops = {0: Loop(invariant=lambda v: both(v.x == RP(v.rle, v.i_), v.x <= v.pos, v.pos >= 0, link(v.rle, v.i_), rp_mono(v.rle, v.i_ + 1, n_runs(v.rle), 0)))}
 
 
-def same_prefix(new, old, k):
-    """The first k runs of `new` are the first k runs of `old`."""
-    return forall(0, k, lambda j: both(eq(run_at(new, j)[0], run_at(old, j)[0]), run_at(new, j)[1] == run_at(old, j)[1]))
+# ------------------------------------------------------------------------------------------------ append / prepend
+
+
+def same_runs(new, old, lo, hi, shift=0):
+    """Runs lo..hi-1 of `old` are runs lo+shift..hi+shift-1 of `new`."""
+    return forall(lo, hi, lambda j: both(aeq(run_at(new, j + shift)[0], run_at(old, j)[0]), run_at(new, j + shift)[1] == run_at(old, j)[1]))
+
+
+def _keeps_bounds(new, old, r):
+    for lo in (0, 1):
+        yield f"runs-stay-at-least-{lo}", implies(both(r >= lo, all_runs_at_least(old, lo)), all_runs_at_least(new, lo))
+
+
+def _modified_shape(name, lref, vals):
+    return RUNS(None, attr_shape(vals["a_r"][0], lref))
 
 
 @contract(UT + "rle_append_modify", property=("C02", "C17"), replayable=False)
 class rle_append_modify:
     params = dict(rle=RLE, a_r=RUN)
     modifies_args = ("rle",)
+    modifies_arg_shape = _modified_shape
+    raises = ()
+
+    def setup(st, self_obj, vals):
+        link(vals["rle"], n_runs(vals["rle"]) - 1)
 
     def ensures(a, result):
-        old = a.old.rle
-        new = a.rle
+        old, new = a.old.rle, a.rle
         n = n_runs(old)
-        at, r = a.a_r
-        merged = (n > 0) and bool(eq(run_at(old, imax(n - 1, 0))[0], at))
+        at_, r = a.a_r
+        L = total(old)
+        yield "returns-none", result is None
+        yield "length-grows-by-the-run", total(new) == L + r
+        yield "old-positions-keep-their-attribute", forall(0, L, lambda p: aeq(at(new, p), at(old, p)))
+        yield "new-positions-carry-the-attribute", forall(L, L + r, lambda p: aeq(at(new, p), at_))
+        merged = (n > 0) and bool(aeq(run_at(old, imax(n - 1, 0))[0], at_))
         if merged:
-            yield "merged-into-the-last-run", both(n_runs(new) == n, same_prefix(new, old, n - 1), eq(run_at(new, n - 1)[0], at), run_at(new, n - 1)[1] == run_at(old, n - 1)[1] + r)
+            yield "merged-into-the-last-run", both(n_runs(new) == n, same_runs(new, old, 0, n - 1), aeq(run_at(new, n - 1)[0], at_), run_at(new, n - 1)[1] == run_at(old, n - 1)[1] + r)
         else:
-            yield "appended-as-a-new-run", both(n_runs(new) == n + 1, same_prefix(new, old, n), eq(run_at(new, n)[0], at), run_at(new, n)[1] == r)
+            yield "appended-as-a-new-run", both(n_runs(new) == n + 1, same_runs(new, old, 0, n), aeq(run_at(new, n)[0], at_), run_at(new, n)[1] == r)
+        yield from _keeps_bounds(new, old, r)
 
 
 @contract(UT + "rle_prepend_modify", property=("C02", "C17"), replayable=False)
 class rle_prepend_modify:
     params = dict(rle=RLE, a_r=RUN)
     modifies_args = ("rle",)
+    modifies_arg_shape = _modified_shape
+    raises = ()
+
+    def setup(st, self_obj, vals):
+        link(vals["rle"], 0)
 
     def ensures(a, result):
-        old = a.old.rle
-        new = a.rle
+        old, new = a.old.rle, a.rle
         n = n_runs(old)
-        at, r = a.a_r
-        merged = (n > 0) and bool(eq(run_at(old, 0)[0], at))
+        at_, r = a.a_r
+        L = total(old)
+        yield "returns-none", result is None
+        yield "length-grows-by-the-run", total(new) == L + r
+        yield "new-positions-carry-the-attribute", forall(0, r, lambda p: aeq(at(new, p), at_))
+        yield "old-positions-move-right-with-their-attribute", forall(0, L, lambda p: aeq(at(new, r + p), at(old, p)))
+        merged = (n > 0) and bool(aeq(run_at(old, 0)[0], at_))
         if merged:
-            yield "merged-into-the-first-run", both(n_runs(new) == n, eq(run_at(new, 0)[0], at), run_at(new, 0)[1] == run_at(old, 0)[1] + r,
-                                                   forall(1, n, lambda j: both(eq(run_at(new, j)[0], run_at(old, j)[0]), run_at(new, j)[1] == run_at(old, j)[1])))
+            yield "merged-into-the-first-run", both(n_runs(new) == n, aeq(run_at(new, 0)[0], at_), run_at(new, 0)[1] == run_at(old, 0)[1] + r, same_runs(new, old, 1, n))
         else:
-            yield "prepended-as-a-new-run", both(n_runs(new) == n + 1, eq(run_at(new, 0)[0], at), run_at(new, 0)[1] == r,
-                                                forall(0, n, lambda j: both(eq(run_at(new, j + 1)[0], run_at(old, j)[0]), run_at(new, j + 1)[1] == run_at(old, j)[1])))
+            yield "prepended-as-a-new-run", both(n_runs(new) == n + 1, aeq(run_at(new, 0)[0], at_), run_at(new, 0)[1] == r, same_runs(new, old, 0, n, shift=1) if n_runs(new) != 1 else True)
+        yield from _keeps_bounds(new, old, r)
+
+
+# ------------------------------------------------------------------------------------------------ rle_join_modify
+
+
+@contract(UT + "rle_join_modify", property=("C02", "C17"), replayable=False, branch_timeout_ms=QBT, cover_timeout_ms=CVT)
+class rle_join_modify:
+    """Precondition (from the call sites): `rle` and `rle2` are two distinct list objects."""
+
+    params = dict(rle=RLE, rle2=RLE)
+    modifies_args = ("rle",)
+    raises = ()
+
+    def modifies_arg_shape(name, lref, vals):
+        return RUNS(None, attr_shape(None, lref))
+
+    def setup(st, self_obj, vals):
+        link(vals["rle2"], 0)
+
+    def ensures(a, result):
+        old, new, r2 = a.old.rle, a.rle, a.rle2
+        L1, L2 = total(old), total(r2)
+        yield "returns-none", result is None
+        yield "length-adds-up", total(new) == L1 + L2
+        yield "first-list-keeps-its-positions", forall(0, L1, lambda p: aeq(at(new, p), at(old, p)))
+        yield "second-list-follows", forall(0, L2, lambda p: aeq(at(new, L1 + p), at(r2, p)))
+        yield "second-argument-untouched", unchanged(a, "rle2")
+        if n_runs(r2) == 0:
+            yield "empty-second-list-changes-nothing", unchanged(a, "rle")
+        else:
+            n, n2 = n_runs(old), n_runs(r2)
+            merged = (n > 0) and bool(aeq(run_at(old, imax(n - 1, 0))[0], run_at(r2, 0)[0]))
+            yield "runs-merged-only-at-the-seam", n_runs(new) == n + n2 - (1 if merged else 0)
+        for lo in (0, 1):
+            yield f"runs-stay-at-least-{lo}", implies(both(all_runs_at_least(old, lo), all_runs_at_least(r2, lo)), all_runs_at_least(new, lo))
+
+
+# ------------------------------------------------------------------------------------------------ rle_subseg
+
+
+def _subseg_inv(v):
+    r, sub, i = v.rle, v.sub_segment, v.i_
+    s0, e = v.old.start, v.end
+    n, m = n_runs(r), n_runs(sub)
+    P = RP(sub, m)
+    link(r, i)
+    rp_mono(r, i, n, 1)
+    yield "still-to-skip", v.start == imax(s0 - RP(r, i), 0)
+    yield "nothing-kept-while-skipping", implies(m == 0, both(v.x == RP(r, i), RP(r, i) <= s0))
+    yield "kept-up-to-x", implies(m > 0, both(v.x == imin(RP(r, i), e), v.x > s0, s0 + P == v.x))
+    yield "no-zero-length-run", forall(0, m, lambda j: run_at(sub, j)[1] >= 1)
+    yield "expansion", forall(0, P, lambda p: aeq(at(sub, p), at(r, s0 + p)))
+
+
+@contract(UT + "rle_subseg", property=("C02", "C17"), replayable=False, branch_timeout_ms=QBT, cover_timeout_ms=CVT)
+class rle_subseg:
+    """Zero-length runs in the input: a zero-length run met after the skipping is over is copied into the result
+    as a zero-length run, one met while skipping is dropped; the expansion is the same either way, but the clause
+    `no-zero-length-run` needs the precondition stated here: all runs positive.  A negative `start` makes the
+    code lengthen the first run (rle_subseg([(a, 3)], -2, 5) == [(a, 5)]): start >= 0 is required."""
+
+    params = dict(rle=RLE1, start=Int, end=Int)
+    result = RLE1
+    raises = ()
+
+    def result_shape(vals):
+        return RUNS(1, attr_shape(None, vals["rle"]))
+
+    def requires(a):
+        return both(a.start >= 0, all_runs_at_least(a.rle, 1))
+
+    def ensures(a, result):
+        r, s, e = a.rle, a.start, a.end
+        m = n_runs(result)
+        yield "length", total(result) == imax(0, imin(e, total(r)) - s)
+        yield "expansion", forall(0, total(result), lambda p: aeq(at(result, p), at(r, s + p)))
+        yield "no-zero-length-run", all_runs_at_least(result, 1)
+        yield "operand-unchanged", unchanged(a, "rle")
+
+    loops = {0: Loop(invariant=_subseg_inv, shapes={"sub_segment": RUNS(None)})}
+
+
+# ------------------------------------------------------------------------------------------------ rle_product / rle_factor
+
+
+def _product_inv(v):
+    r1, r2, res = v.rle1, v.rle2, v.result
+    n1, n2, m = n_runs(r1), n_runs(r2), n_runs(res)
+    i1, i2 = v.i1, v.i2
+    P = RP(res, m)
+    link(r1, i1 - 1)
+    link(r2, i2 - 1)
+    rp_mono(r1, i1, n1, 1)
+    rp_mono(r2, i2, n2, 1)
+    yield "indexes", both(1 <= i1, i1 <= n1, 1 <= i2, i2 <= n2)
+    c1, c2 = run_at(r1, i1 - 1), run_at(r2, i2 - 1)
+    yield "current-run-of-the-first", both(aeq(v.a1, c1[0]), 0 <= v.r1, v.r1 <= c1[1], P + v.r1 == RP(r1, i1))
+    yield "current-run-of-the-second", both(aeq(v.a2, c2[0]), 0 <= v.r2, v.r2 <= c2[1], P + v.r2 == RP(r2, i2))
+    yield "used-up-only-at-the-end", both(implies(v.r1 == 0, i1 == n1), implies(v.r2 == 0, i2 == n2))
+    yield "expansion", forall(0, P, lambda p: aeq(at(res, p), (at(r1, p), at(r2, p))))
+    yield "no-zero-length-run", all_runs_at_least(res, 1)
+
+
+@contract(UT + "rle_product", property=("C02", "C17"), replayable=False, branch_timeout_ms=QBT, cover_timeout_ms=4000)
+class rle_product:
+    """Zero-length runs in the inputs: the loop `while r1 and r2` stops at the first zero-length run it loads,
+    so the product is cut short there (rle_product([(a,0),(b,2)], [(c,2)]) == []); negative runs never terminate.
+    Precondition: all runs positive."""
+
+    params = dict(rle1=RLE1, rle2=RLE1)
+    result = RUNS(1, PAIR)
+    raises = ()
+
+    def requires(a):
+        return both(all_runs_at_least(a.rle1, 1), all_runs_at_least(a.rle2, 1))
+
+    def setup(st, self_obj, vals):
+        # totals are non-negative (lemma instance; needed on the early exit for an empty operand)
+        for k in ("rle1", "rle2"):
+            rp_mono(vals[k], 0, n_runs(vals[k]), 1)
+
+    def ensures(a, result):
+        r1, r2 = a.rle1, a.rle2
+        yield "length-is-the-shorter-operand", total(result) == imin(total(r1), total(r2))
+        yield "expansion-is-the-pair-of-expansions", forall(0, total(result), lambda p: aeq(at(result, p), (at(r1, p), at(r2, p))))
+        yield "no-zero-length-run", all_runs_at_least(result, 1)
+        yield "operands-unchanged", both(unchanged(a, "rle1"), unchanged(a, "rle2"))
+
+    loops = {0: Loop(invariant=_product_inv, decreases=lambda v: total(v.rle1) - total(v.result), modifies=("result",), shapes={"result": RUNS(None, PAIR)})}
+
+
+def _factor_inv(v):
+    r, f1, f2, i = v.rle, v.rle1, v.rle2, v.i_
+    P = RP(r, i)
+    link(r, i)
+    yield "lengths", both(total(f1) == P, total(f2) == P)
+    yield "first-components", forall(0, P, lambda p: aeq(at(f1, p), at(r, p)[0]))
+    yield "second-components", forall(0, P, lambda p: aeq(at(f2, p), at(r, p)[1]))
+    for lo in (0, 1):
+        yield f"runs-at-least-{lo}", implies(all_runs_at_least(r, lo), both(all_runs_at_least(f1, lo), all_runs_at_least(f2, lo)))
+
+
+@contract(UT + "rle_factor", property=("C02", "C17"), replayable=False, branch_timeout_ms=QBT, cover_timeout_ms=CVT)
+class rle_factor:
+    """Inverse of rle_product in the expansion view: with rle = rle_product(a, b) the two results expand to a and b
+    over the product's length (compose `expansion-is-the-pair-of-expansions` with the two clauses here)."""
+
+    params = dict(rle=RUNS(0, PAIR))
+    result = Tup(RLE, RLE)
+    raises = ()
+
+    def ensures(a, result):
+        r = a.rle
+        f1, f2 = result
+        L = total(r)
+        yield "same-lengths", both(total(f1) == L, total(f2) == L)
+        yield "first-components", forall(0, L, lambda p: aeq(at(f1, p), at(r, p)[0]))
+        yield "second-components", forall(0, L, lambda p: aeq(at(f2, p), at(r, p)[1]))
+        for lo in (0, 1):
+            yield f"runs-at-least-{lo}", implies(all_runs_at_least(r, lo), both(all_runs_at_least(f1, lo), all_runs_at_least(f2, lo)))
+        yield "operand-unchanged", unchanged(a, "rle")
+
+    loops = {0: Loop(invariant=_factor_inv, modifies=("rle1", "rle2"), shapes={"rle1": RUNS(None), "rle2": RUNS(None)})}
+
+
+# ------------------------------------------------------------------------------------------------ the inductive fact
+
+
+@lemma("rle-prefix-sums-monotone", property=("C02", "C17"))
+class rle_prefix_sums_monotone:
+    """P(j) := RP(j) >= RP(i) + lo*(j - i) for i <= j <= n, when every run is >= lo (lo = 0 and lo = 1).
+    Base j = i; step from the defining equation RP(j+1) = RP(j) + run_j with run_j >= lo.  Instantiated by `rp_mono`."""
+
+    params = dict(i=Int, j=Int, ri=Int, rj=Int, t=Int)
+
+    def requires(x):
+        return x.i <= x.j
+
+    def claim(x):
+        yield "base", x.ri >= x.ri + 0 * (x.i - x.i)
+        yield "step-lo-0", implies(both(x.t >= 0, x.rj >= x.ri), x.rj + x.t >= x.ri)
+        yield "step-lo-1", implies(both(x.t >= 1, x.rj >= x.ri + (x.j - x.i)), x.rj + x.t >= x.ri + (x.j + 1 - x.i))
